@@ -260,6 +260,19 @@ fn py_escapes(text: &str) -> ! {
 
 fn main() {
     let args: Vec<String> = std::env::args().skip(1).collect();
+    if args.first().map(|a| a == "from-file").unwrap_or(false) {
+        // `from-file PATH`: RegExpBuilder::from_file(PATH).build() next to RegExpBuilder::from(lines of PATH).build(); both run under catch_unwind
+        let path = args.get(1).expect("from-file PATH").clone();
+        let p2 = path.clone();
+        let a = std::panic::catch_unwind(move || RegExpBuilder::from_file(p2).build());
+        let lines: Vec<String> = std::fs::read_to_string(&path).map(|c| c.lines().map(|l| l.to_string()).collect()).unwrap_or_default();
+        let b = std::panic::catch_unwind(move || RegExpBuilder::from(&lines).build());
+        let show = |r: &std::thread::Result<String>| match r { Ok(s) => format!("Ok({s:?})"), Err(e) => format!("panic({:?})", e.downcast_ref::<String>().cloned().or_else(|| e.downcast_ref::<&str>().map(|x| x.to_string())).unwrap_or_default()) };
+        println!("from_file: {}", show(&a)); println!("from(lines): {}", show(&b));
+        let same = match (&a, &b) { (Ok(x), Ok(y)) => x == y, (Err(_), Err(_)) => show(&a) == show(&b), _ => false };
+        if !same { println!("FAIL: from_file does not behave like from() on the file's lines"); std::process::exit(1) }
+        println!("ok: same behaviour"); std::process::exit(0)
+    }
     if args.first().map(|a| a == "py-escapes").unwrap_or(false) { py_escapes(args.get(1).map(|x| x.as_str()).unwrap_or("")) }
     if args.first().map(|a| a == "hunt-prop").unwrap_or(false) { hunt_prop(args.get(1).map(|x| x.as_str()).unwrap_or("")) }
     if args.first().map(|a| a == "hunt-sound").unwrap_or(false) { hunt_sound() }
